@@ -1,6 +1,7 @@
 //! C01 stack meter: how many bytes of native stack each phase of loading / rendering a template uses.
 //!
-//! Request (JSON line): {"template": src, "ctx": json, "stack_kib": n (default 262144 = 256 MiB), "height_only": bool}
+//! Request (JSON line): {"template": src, "ctx": json, "stack_kib": n (default 262144 = 256 MiB), "height_only": bool,
+//!                        "load_only": bool (+ "syntax", "settings": load and render with a custom syntax, answer like `prog`)}
 //! Response: {"ast_height": nodes on the longest path of the AST, "parse": bytes, "parse_ok": bool, "compile": bytes (code generation alone), "drop_ast": bytes, "load": bytes, "load_ok": bool,
 //!            "undeclared": bytes, "render": bytes, "render_ok": bool, "drop_env": bytes}
 //! Method: the request runs on a fresh thread with a big stack; before each phase the unused part of
@@ -71,6 +72,57 @@ fn run(req: &J, stack: usize) -> J {
     let src = req.get("template").and_then(|x| x.as_str()).unwrap_or("").to_string();
     let ctx = Value::from(minijinja::value::Serde(req.get("ctx").cloned().unwrap_or(J::Null)));
     let mut out = serde_json::Map::new();
+    if req.get("load_only").and_then(|x| x.as_bool()).unwrap_or(false) {
+        // lexer / parser boundary families with a configurable syntax (the generic `prog` bin has none):
+        // {"syntax": {"line_statement_prefix": s, "line_comment_prefix": s, "block": [s, e], "variable": [s, e],
+        //  "comment": [s, e]}, "settings": {..}}; answers like `prog`: {"render": {"ok": len} | {"err": code}}
+        let mut env = Environment::new();
+        if let Some(sy) = req.get("syntax") {
+            let mut b = minijinja::syntax::SyntaxConfig::builder();
+            let pair = |k: &str| -> Option<(String, String)> {
+                let a = sy.get(k)?.as_array()?;
+                Some((a.first()?.as_str()?.to_string(), a.get(1)?.as_str()?.to_string()))
+            };
+            if let Some((a, z)) = pair("block") {
+                b.block_delimiters(a, z);
+            }
+            if let Some((a, z)) = pair("variable") {
+                b.variable_delimiters(a, z);
+            }
+            if let Some((a, z)) = pair("comment") {
+                b.comment_delimiters(a, z);
+            }
+            if let Some(p) = sy.get("line_statement_prefix").and_then(|x| x.as_str()) {
+                b.line_statement_prefix(p.to_string());
+            }
+            if let Some(p) = sy.get("line_comment_prefix").and_then(|x| x.as_str()) {
+                b.line_comment_prefix(p.to_string());
+            }
+            match b.build() {
+                Ok(c) => env.set_syntax(c),
+                Err(e) => {
+                    out.insert("render".into(), json!({"err": mjverif::err_code(e.kind())}));
+                    return J::Object(out);
+                }
+            }
+        }
+        if let Some(st) = req.get("settings") {
+            env.set_trim_blocks(st["trim_blocks"].as_bool().unwrap_or(false));
+            env.set_lstrip_blocks(st["lstrip_blocks"].as_bool().unwrap_or(false));
+            env.set_keep_trailing_newline(st["keep_trailing_newline"].as_bool().unwrap_or(false));
+        }
+        env.set_debug(true);
+        let r = env.add_template_owned("main".to_string(), src.clone()).and_then(|_| env.get_template("main")?.render(ctx.clone()));
+        let r = match r {
+            Ok(s) => json!({"ok": s.len()}),
+            Err(e) => {
+                let _ = format!("{} {:#} {:?} {}", e, e, e, e.display_debug_info());
+                json!({"err": mjverif::err_code(e.kind())})
+            }
+        };
+        out.insert("render".into(), r);
+        return J::Object(out);
+    }
     if req.get("height_only").and_then(|x| x.as_bool()).unwrap_or(false) {
         let ast = minijinja::machinery::parse(&src, "main", Default::default(), Default::default());
         out.insert("parse_ok".into(), json!(ast.is_ok()));
@@ -135,7 +187,9 @@ fn main() {
         };
         let stack = req.get("stack_kib").and_then(|x| x.as_u64()).unwrap_or(262144) as usize * 1024;
         let h = std::thread::Builder::new().stack_size(stack).spawn(move || {
-            std::panic::catch_unwind(std::panic::AssertUnwindSafe(|| run(&req, stack))).unwrap_or_else(|_| json!({"panic": true}))
+            std::panic::catch_unwind(std::panic::AssertUnwindSafe(|| run(&req, stack))).unwrap_or_else(|p| {
+                json!({"panic": p.downcast_ref::<String>().cloned().or_else(|| p.downcast_ref::<&str>().map(|s| s.to_string())).unwrap_or_default()})
+            })
         });
         let res = match h {
             Ok(h) => h.join().unwrap_or_else(|_| json!({"panic": true})),
